@@ -62,6 +62,7 @@ PROPS = {
     "C11": {"level": "exploration", "assumptions": SIM_ASSUME + ["the 3 s persist interval is checked for its stated bound with 1.5 s slack on the sandbox clock; a canary timer turns starvation into 'inconclusive'"],
             "parts": [sim("TestC11Sim", q=(300, 4), t=(4000, 16)),
                       {"pkg": "sim", "test": "TestC11Persist", "quick": {"checks": 1, "shards": 1, "shrink": "0s", "timeout": "10m"}, "thorough": {"checks": 4, "shards": 4, "shrink": "0s", "timeout": "1h"}},
+                      rp("procs", "TestC11Real", (10, 2), (200, 8), helpers=["cmd/vhelper"]),
                       rp("procs", "TestC11Binary", (8, 2), (80, 8), helpers=["cmd/vhelper", "pkg:github.com/Flowpack/prunner/cmd/prunner"])]},
     "C12": {"level": "exploration", "assumptions": SIM_ASSUME + ["the wall clock of the sandbox: generated job ages stay >=25% away from the retention period boundaries"],
             "parts": [sim("TestC12", q=(250, 4), t=(2500, 16))]},
